@@ -15,7 +15,7 @@ RULE = ('(i) every clause body tree with <= N operators from , ; -> \\+ over the
         'the context of C05, with and without a continuation goal m(W) after the construct; (ii) every '
         'unparenthesised body l1 op1 l2 .. opk lk+1 (k <= K, ops from , ; ->, every leaf from {z o m true} '
         'optionally prefixed by \\+) compiled as written and compared with RefProlog run on the tree obtained by '
-        'an independent operator-precedence reading; (iii) deep spines: every tree with <= D operators over the leaves {o m z !} placed in ONE position (condition, then, else, either alternative, negated goal, either conjunct) of a construct whose other positions are single leaves, with a continuation goal. states = distinct answer sequences; transitions = '
+        'an independent operator-precedence reading; (iii) deep spines: every tree with <= D operators over the leaves {o m z ! and q = a test on the variable of a two-solution goal in front of the body, so that the construct is entered twice with different outcomes} placed in ONE position (condition, then, else, either alternative, negated goal, either conjunct) of a construct whose other positions are single leaves, with a continuation goal. states = distinct answer sequences; transitions = '
         'next() calls on the real engine; non-trivial = at least one answer')
 ASSUMPTIONS = ['RefProlog implements the standard semantics of ; -> \\+ and cut',
                'cuts in the condition of -> or under \\+ are outside the property and skipped',
@@ -93,7 +93,7 @@ def run_trees(k, n, maxops, tier):
 # alternative of a construct.  These families put a deep part D (every tree with <= dmax operators
 # over the leaves o m z !) into ONE position of a construct whose other positions are single
 # leaves, followed by a continuation goal.
-DEEP_LEAVES = ['o', 'm', 'z', '!']
+DEEP_LEAVES = ['o', 'm', 'z', '!', 'q']
 
 
 def deep_trees(dmax):
@@ -130,14 +130,14 @@ def spine_cases(dmax, small):
 def run_spines(spec):
     _, k, n, dmax, tier = spec
     acc = Acc()
-    small = ['o', 'z', '!'] if tier == 'quick' else ['o', 'z', '!', 'm']
+    small = ['o', '!'] if tier == 'quick' else ['o', 'z', '!', 'm']
     if tier != 'quick' and dmax >= 3:
         small = ['o', '!']
     seen = set()
     for idx, t in enumerate(spine_cases(dmax, small)):
         if idx % n != k:
             continue
-        if bodies.count_ops(t) <= (2 if tier == 'quick' else 3):
+        if bodies.count_ops(t) <= (2 if tier == 'quick' else 3) and 'q' not in bodies.show_tree(t):
             continue   # already enumerated by the plain operator bound
         key = bodies.show_tree(t)
         if key in seen:
@@ -148,7 +148,8 @@ def run_spines(spec):
             acc.n['evaluations'] += 1
             acc.skipped['opaque-cut'] += 1
             continue
-        case = treecheck.tree_case(t, suffix=1)
+        # the construct is entered once per solution of m(P) in front of it, and the leaf q tests P
+        case = treecheck.tree_case(t, prefix=True, suffix=1)
         res = case.run()
         if res['status'] == 'violation':
             res['sig'] = 'deep-spine:' + res['sig']
